@@ -354,6 +354,39 @@ def extract_drivers():
 
 HOOKS.append(extract_drivers)
 
+def f32(x):
+    import struct
+    return struct.unpack("<f", struct.pack("<f", x))[0]
+
+
+def f32_bits(x):
+    import struct
+    return struct.unpack("<I", struct.pack("<f", x))[0]
+
+
+def deg_to_rad_bits(deg):
+    """bit pattern of `(deg as f32).to_radians()` = deg * (PI_f32 / 180.0_f32), each step rounded to f32"""
+    import math
+    k = f32(f32(math.pi) / f32(180.0))
+    return f32_bits(f32(f32(deg) * k))
+
+
+def extract_director():
+    d = "glonax-runtime/src/service/director.rs"
+    add("directorInclinometer", const(d, "INCLINOMETER"), "director.rs INCLINOMETER source address")
+    b = body_of(d, r"INCLINOMETER\s*=>\s*\{", "inclinometer arm of elect_rotator_state")
+    # thresholds with the verdict each branch returns, in source order
+    arms = re.findall(r"roll\s*>\s*([0-9.]+)_f32\.to_radians\(\)\s*\|\|\s*pitch\s*>\s*([0-9.]+)_f32\.to_radians\(\)\)\s*&&\s*yaw\s*==\s*0\.0\s*\{.*?return\s+DirectorLocslState::(\w+)", b, re.S)
+    if len(arms) != 2 or any(a[0] != a[1] for a in arms):
+        raise ExtractError("director.rs: inclinometer branches (found %r)" % (arms,))
+    for i, (t, _, verdict) in enumerate(arms):
+        add(f"directorTiltBranch{i}Bits", deg_to_rad_bits(float(t)), f"director.rs inclinometer branch {i}: ({t}_f32).to_radians() as f32 bit pattern")
+        add(f"directorTiltBranch{i}Emergency", "true" if verdict == "Emergency" else "false", f"director.rs inclinometer branch {i} returns {verdict}", ty="Bool")
+        add(f"directorTiltBranch{i}Deg", int(float(t)), f"director.rs inclinometer branch {i} threshold in degrees")
+
+
+HOOKS.append(extract_director)
+
 
 def main():
     try:
